@@ -98,6 +98,7 @@ def r1_sufficiency(chk: Check):
     # match decision table
     f = tree.func("launcherfinder.specs", "HostSimpleRequirement.match")
     g = CFG(f.node)
+    rd = ReachingDefs(g)
 
     def classify(n):
         if n.kind == "for":
@@ -117,6 +118,11 @@ def r1_sufficiency(chk: Check):
     def stop(n):
         if n.kind == "stmt" and isinstance(n.ast, ast.Return):
             v = n.ast.value
+            if isinstance(v, ast.Name):
+                # a result variable: what it holds on this path (single reaching definition)
+                d = rd.unique(v.id, n)
+                if d is not None and d.value is not None:
+                    v = d.value
             return "no match" if v is None or (isinstance(v, ast.Constant) and v.value is None) else "match"
         if n is g.exit:
             return "no match"
